@@ -6,6 +6,9 @@ window      the source says of its 65-point search window "There is no proof tha
             every integer vector n with |n|_inf <= R outside W there is NO separation d in [-1,1]^3 (difference of two
             positions reduced to [-1/2,1/2]) with |B(d+n)| < |B(d+w)| for all w in W.  For concrete B the quadratic terms
             cancel: one LRA query per n.  R = 3 (quick) / 4 (thorough).
+niggli      (thorough) the same statement for a *symbolic lattice*: Gram matrix of the reduced basis = 5 free reals (a.a = 1) under the
+            main Niggli conditions, d free in [-1,1]^3, |n|_inf <= 3: bilinear real arithmetic, one query per outside point
+            and cell type.  A model is reported only if the real get_smallest_vectors misses the minimum on that lattice.
 reduction   ShortestPairs._transform_cell_basis executed in E2 on *symbolic* positions: the positions handed to the kernel
             lie in [-1/2, 1/2] and equal pos . trans_mat modulo integers; trans_mat is unimodular and maps the reduced basis
             to the supercell basis - the precondition under which 'window' speaks about the real code.
@@ -47,6 +50,9 @@ def units(tier):
     u = [("window", k, R) for k in allk]
     u += [("reduction", k) for k in ("tric", "nondiag_sc", "nondiag_sc2", "hex", "shear60")]
     u += [("tables", 0)]
+    if tier == "thorough":
+        K = 12
+        u += [("niggli", 2, k, K) for k in range(K)] + [("niggli", 3, k, 3 * K) for k in range(3 * K)]
     return u
 
 
@@ -214,10 +220,81 @@ def tables_unit(u, res):
     return res
 
 
+def niggli_unit(u, res):
+    """window completeness for a *symbolic lattice*: the Gram matrix of the reduced basis is 5 free reals (scale fixed by
+    a.a = 1) constrained by the main Niggli conditions (a superset of the Niggli-reduced cells: the tie-breaking special
+    conditions are dropped), the separation d is free in [-1,1]^3.  For every outside point n with |n|_inf <= R:
+    no (lattice, d) makes n strictly closer than all 65 window points.  Bilinear real arithmetic (NRA)."""
+    _, R, k, K = u
+    W = window_points()
+    B_, C_, xi, eta, zeta = z3.Reals("B C xi eta zeta")
+    A_ = z3.RealVal(1)
+    d = [z3.Real("d%d" % i) for i in range(3)]
+    G = [[A_, zeta / 2, eta / 2], [zeta / 2, B_, xi / 2], [eta / 2, xi / 2, C_]]
+    det = (G[0][0] * (G[1][1] * G[2][2] - G[1][2] * G[2][1]) - G[0][1] * (G[1][0] * G[2][2] - G[1][2] * G[2][0]) + G[0][2] * (G[1][0] * G[2][1] - G[1][1] * G[2][0]))
+
+    def absle(x, y):
+        return z3.And(x <= y, -x <= y)
+    base = [A_ <= B_, B_ <= C_, C_ <= 400, absle(xi, B_), absle(eta, A_), absle(zeta, A_), det >= Fraction(1, 10 ** 6)]
+    types = {"acute": [xi > 0, eta > 0, zeta > 0], "obtuse": [xi <= 0, eta <= 0, zeta <= 0, xi + eta + zeta + A_ + B_ >= 0]}
+    box = []
+    for x in d:
+        box += [x >= -1, x <= 1]
+
+    def lin(n):
+        c = [2 * sum(n[i] * G[i][j] for i in range(3)) for j in range(3)]
+        c0 = sum(n[i] * G[i][j] * n[j] for i in range(3) for j in range(3))
+        return z3.Sum([c[j] * d[j] for j in range(3)]) + c0
+    Wl = [lin(w) for w in W]
+    pts = [n for n in itertools.product(range(-R, R + 1), repeat=3) if n not in W and (R == 2 or max(abs(x) for x in n) == R)]
+    mine = pts[k::K]
+    for n in mine:
+        ln = lin(n)
+        for tname, ty in types.items():
+            v, m = solve(res, "for all reduced lattices (%s) and separations: outside point %s never strictly beats the window" % (tname, list(n)), base + ty + box + [ln < w for w in Wl], timeout_ms=90000)
+            key = "%s:niggli:%s:%s" % (PID, tname, "_".join(map(str, n)))
+            if v == "sat":
+                Gv = np.array([[model_value(m, G[i][j]) if isinstance(G[i][j], z3.ExprRef) else 1.0 for j in range(3)] for i in range(3)], dtype=float)
+                dv = np.array([model_value(m, x) for x in d], dtype=float)
+                ok, what = replay_niggli(Gv, dv)
+                if ok:
+                    res.violations.append({"key": key, "what": what, "replay": {"gram": Gv.tolist(), "d": dv.tolist(), "n": list(n)}})
+                else:
+                    res.notes.append("model of the relaxed Niggli conditions not confirmed on the real code: " + key)
+            elif v == "unknown":
+                res.notes.append("inconclusive " + key)
+    res.stat("outside_points", len(mine))
+    v2, _ = solve(res, "twin", base + types["acute"] + box + [Wl[1] < Wl[0]], record=False)
+    res.twins.append({"name": "niggli twin: some window point can beat another", "verdict": v2})
+    res.samples.append({"unit": res.unit, "outside_points": [list(n) for n in mine[:4]], "assertion": "not exists Gram matrix (main Niggli conditions, a.a = 1, c.c <= 400), d in [-1,1]^3: |d+n|_G < |d+w|_G for all 65 w"})
+    return res
+
+
+@symnp.outside_session
+def replay_niggli(Gv, dv):
+    """real get_smallest_vectors on the lattice with that Gram matrix and two atoms separated by d, against brute force"""
+    from phonopy.structure.cells import get_smallest_vectors
+    try:
+        rows = np.linalg.cholesky(Gv)               # rows @ rows.T = Gv: basis vectors as rows
+    except np.linalg.LinAlgError:
+        return False, "not positive definite"
+    p1 = np.clip(dv / 2, -0.5, 0.5); p2 = p1 - dv
+    spos = np.array([p1]); ppos = np.array([p2])
+    svecs, multi = get_smallest_vectors(rows, spos, ppos, store_dense_svecs=True)
+    d0 = spos[0] - ppos[0]
+    cand = [d0 - np.rint(d0) + np.array(n) for n in itertools.product(range(-5, 6), repeat=3)]
+    lens = np.array([np.linalg.norm(c @ rows) for c in cand])
+    mn = lens.min()
+    got = [np.linalg.norm(v @ rows) for v in svecs[multi[0, 0, 1]:multi[0, 0, 1] + multi[0, 0, 0]]]
+    nwant = int((lens - mn < 1e-5).sum())
+    bad = (max(got) > mn + 1e-5) or len(got) != nwant
+    return bad, "shortest-vector table for a reduced lattice with Gram matrix %s and separation %s: stored lengths %s (%d vectors), true minimum %.6f with multiplicity %d" % (np.round(Gv, 4).tolist(), np.round(d0, 4).tolist(), np.round(got, 6).tolist(), len(got), mn, nwant)
+
+
 def run_unit(u):
     res = Result("/".join(str(x) for x in u))
     harness.setup()
-    return {"window": window_unit, "reduction": reduction_unit, "tables": tables_unit}[u[0]](u, res)
+    return {"window": window_unit, "reduction": reduction_unit, "tables": tables_unit, "niggli": niggli_unit}[u[0]](u, res)
 
 
 def main(tier, seed):
@@ -225,7 +302,7 @@ def main(tier, seed):
     harness.setup()
     us = units(tier)
     chk.bounds = ["lattice family: %s" % sorted(LATTICES), "competing images |n|_inf <= 3 (quick) / 4 (thorough); separations d in [-1,1]^3", "reduction: 3 supercell + 1 primitive symbolic positions in +-0.02 boxes around anchors near cell faces"]
-    chk.outside = ["images with |n|_inf beyond the bound; lattices outside the family (a symbolic Niggli-reduced Gram matrix is planned in DESIGN.md, not built)",
+    chk.outside = ["images with |n|_inf beyond the bound; in the quick tier lattices outside the family (the thorough tier decides the window for a symbolic reduced Gram matrix with |n|_inf <= 3)",
                    "the selection logic of the C kernel for symbolic positions (covered concretely by the tables unit and by C13's sweep, not by a solver query)", "bases that spglib returns not Niggli-reduced within its tolerance"]
     chk.assumptions = ["spglib.niggli_reduce is trusted (its output is what the window is tested against)", "doubles as exact reals"]
     chk.run_units(run_unit, us)
